@@ -443,3 +443,8 @@ Proof.
   rewrite <- Hd. apply accept_sound; auto.
 Qed.
 End EndToEnd.
+
+Lemma printer_example :
+  print_range [PRange BdMin (BdNum (-10) 0); PSingle (BdNum 18446744073709551616 0)] =
+  [x6d;x69;x6e;x2e;x2e;x2d;x31;x30;x7c;x31;x38;x34;x34;x36;x37;x34;x34;x30;x37;x33;x37;x30;x39;x35;x35;x31;x36;x31;x36].
+Proof. vm_compute. reflexivity. Qed.
